@@ -1,0 +1,8 @@
+//go:build !verif
+
+// Package vhook provides named pause points for external verification harnesses.
+// Without the verif build tag every call is an empty function that the compiler removes.
+package vhook
+
+// At marks a named point in the code.
+func At(point string) {}
